@@ -28,7 +28,7 @@ func init() {
 			{"PEER-CONSUMES", rulePeerConsumes},
 		},
 		Meta: eng.PropMeta{
-			Explanation: "Decides the structural side of 'exactly one notification per committed document commit, only for committed changes, in order': (EVENT-ONSUCCESS) every publication of an update event in the module sits inside a callback registered with the transaction's OnSuccess/OnSuccessAsync (one tabled exception re-announcing already committed heads); (EVENT-PAYLOAD) in save and applyDelete every document-level and collection-level AddDelta is followed, on every non-error path to the function's exit, by exactly one OnSuccess registration whose event carries the Cid and the block bytes returned by that same AddDelta; (CONFINEMENT) all bus commands pass the single commandChannel whose only receiver is the one handleChannel goroutine, which delivers in loop order; (BUS-BLOCKING) delivery to a subscriber is an unconditional blocking send — never a select with a default/timeout arm that could drop a notification; (SUB-CID) a subscription evaluates at the Cid and DocID of the received update event; (PEER-CONSUMES) the peer subscribes to update events and hands each to handleLog. (COMMIT-CALLBACKS) as in C05: success callbacks, which carry every update event, run only when the store commit returned nil. (EVENT-COLLECTION-ID) as in C19. (BUS-SUBSCRIBER-LOCAL) subscribing and unsubscribing touch only the subscriber concerned: handleChannel deletes subscriber ids from an event's set, never the set itself, and creates a set only when the event name has none. (SUB-OWN-CHANGES) a GraphQL subscription sends a result only for events of its own collection (the event's CollectionID is compared with the subscribed collection's id on every path to the send) and judges 'nothing matched' on the selection's items, not on the result map, which is never empty. (FAIL-BEFORE-WRITE) in collection.create the unique-index violation — a failure that depends on the user's input — is detected before the first write; on the current tree it is detected after c.save, so inside an explicit transaction a create that reported an error leaves its document and its notification behind: the recorded known finding of this rule.",
+			Explanation: "Decides the structural side of 'exactly one notification per committed document commit, only for committed changes, in order': (EVENT-ONSUCCESS) every publication of an update event in the module sits inside a callback registered with the transaction's OnSuccess/OnSuccessAsync (one tabled exception re-announcing already committed heads); (EVENT-PAYLOAD) in save and applyDelete every document-level and collection-level AddDelta is followed, on every non-error path to the function's exit, by exactly one OnSuccess registration whose event carries the Cid and the block bytes returned by that same AddDelta; (CONFINEMENT) all bus commands pass the single commandChannel whose only receiver is the one handleChannel goroutine, which delivers in loop order; (BUS-BLOCKING) delivery to a subscriber is an unconditional blocking send — never a select with a default/timeout arm that could drop a notification; (SUB-CID) a subscription evaluates at the Cid and DocID of the received update event: handleSubscription passes both to ObjectSubscription.ToSelect, which puts them into the select's DocIDsFilter and CIDFilter, and the select is run as built; (PEER-CONSUMES) the peer subscribes to update events and hands each to handleLog. (COMMIT-CALLBACKS) as in C05: success callbacks, which carry every update event, run only when the store commit returned nil. (EVENT-COLLECTION-ID) as in C19. (BUS-SUBSCRIBER-LOCAL) subscribing and unsubscribing touch only the subscriber concerned: handleChannel deletes subscriber ids from an event's set, never the set itself, and creates a set only when the event name has none. (SUB-OWN-CHANGES) a GraphQL subscription sends a result only for events of its own collection (the event's CollectionID is compared with the subscribed collection's id on every path to the send) and judges 'nothing matched' on the selection's items, not on the result map, which is never empty. (FAIL-BEFORE-WRITE) in collection.create the unique-index violation — a failure that depends on the user's input — is detected before the first write; on the current tree it is detected after c.save, so inside an explicit transaction a create that reported an error leaves its document and its notification behind: the recorded known finding of this rule.",
 			NotDecided:  "delivery under back-pressure and shutdown, exactly-one results of GraphQL subscriptions against their filter, ordering across concurrent callers (defined by commit completion order at run time)",
 		},
 	})
@@ -369,6 +369,91 @@ func ruleSubCid(c *eng.Ctx) {
 		}
 	}
 	c.Floor(rule, n, 1)
+	// the callee side: ObjectSubscription.ToSelect puts its docID parameter into the select's
+	// DocIDsFilter and its cid parameter into the select's CIDFilter (as a composite-literal field or
+	// by assignment) — otherwise the selection runs at the document's current state, which need not
+	// be the state of the commit that triggered the notification.
+	if ts := c.Anchor(rule, "client/request.(ObjectSubscription).ToSelect"); ts != nil && ts.Decl.Body != nil {
+		tinfo := ts.Pkg.TypesInfo
+		var params []types.Object
+		for _, f := range ts.Decl.Type.Params.List {
+			for _, nm := range f.Names {
+				params = append(params, tinfo.Defs[nm])
+			}
+		}
+		mentionsAny := func(e ast.Expr, set map[types.Object]bool) bool {
+			found := false
+			ast.Inspect(e, func(x ast.Node) bool {
+				if id, ok := x.(*ast.Ident); ok && set[tinfo.Uses[id]] {
+					found = true
+				}
+				return true
+			})
+			return found
+		}
+		// the parameter, and every local computed from it (x := f(param); y := g(x) …)
+		derivedFrom := func(o types.Object) map[types.Object]bool {
+			set := map[types.Object]bool{o: true}
+			for changed := true; changed; {
+				changed = false
+				ast.Inspect(ts.Decl.Body, func(x ast.Node) bool {
+					as, ok := x.(*ast.AssignStmt)
+					if !ok || len(as.Lhs) != len(as.Rhs) {
+						return true
+					}
+					for i, l := range as.Lhs {
+						id, isID := ast.Unparen(l).(*ast.Ident)
+						if !isID || !mentionsAny(as.Rhs[i], set) {
+							continue
+						}
+						lo := tinfo.Defs[id]
+						if lo == nil {
+							lo = tinfo.Uses[id]
+						}
+						if lo != nil && !set[lo] {
+							set[lo] = true
+							changed = true
+						}
+					}
+					return true
+				})
+			}
+			return set
+		}
+		mentions := func(e ast.Expr, o types.Object) bool { return mentionsAny(e, derivedFrom(o)) }
+		flows := func(field string, o types.Object) bool {
+			ok := false
+			ast.Inspect(ts.Decl.Body, func(x ast.Node) bool {
+				switch y := x.(type) {
+				case *ast.KeyValueExpr:
+					if id, isID := y.Key.(*ast.Ident); isID && id.Name == field && mentions(y.Value, o) {
+						ok = true
+					}
+				case *ast.AssignStmt:
+					for i, l := range y.Lhs {
+						if i < len(y.Rhs) && isFieldNamed(tinfo, l, field) && mentions(y.Rhs[i], o) {
+							ok = true
+						}
+						if se, isSel := ast.Unparen(l).(*ast.SelectorExpr); isSel && i < len(y.Rhs) && mentions(y.Rhs[i], o) {
+							if inner, isSel2 := ast.Unparen(se.X).(*ast.SelectorExpr); isSel2 && inner.Sel.Name == field {
+								ok = true
+							}
+						}
+					}
+				}
+				return true
+			})
+			return ok
+		}
+		if len(params) == 2 && params[0] != nil && params[1] != nil {
+			c.Check(flows("DocIDsFilter", params[0]), rule, "ToSelect:docID→DocIDsFilter", ts.Decl.Pos(), "the select is restricted to the event's document",
+				"ObjectSubscription.ToSelect does not put its docID parameter into the select's DocIDsFilter: a notification reports documents other than the one that changed")
+			c.Check(flows("CIDFilter", params[1]), rule, "ToSelect:cid→CIDFilter", ts.Decl.Pos(), "the select is evaluated at the event's commit",
+				"ObjectSubscription.ToSelect does not put its cid parameter into the select's CIDFilter: the subscription filter and result are evaluated on the document's current state, not on the commit that triggered the notification (a matching commit followed quickly by another is not reported, or reported with the later state)")
+		} else {
+			c.Unknown(rule, "ToSelect:parameters", ts.Decl.Pos(), "anchor-unresolved: ToSelect no longer takes (docID, cid)")
+		}
+	}
 }
 
 func rulePeerConsumes(c *eng.Ctx) {
